@@ -178,12 +178,13 @@ Qed.
 Definition wf_fval (f : fval) : Prop :=
   match f with FFunc s _ => wf_sig s | _ => True end.
 
-(* invalid_rejected, for everything but the nil value: an error, not a panic, and the
-   error names the first offending parameter *)
-Theorem invalid_rejected_partial name f : f <> FNil -> wf_fval f ->
+(* invalid_rejected: every value that is not of the documented shape (nil and non-functions
+   included) gets an error, not a panic *)
+Theorem invalid_rejected name f : wf_fval f ->
   acceptable name f = false -> exists e, check_native_func name f = NOk (Some e).
 Proof.
-  intros Hn W A. destruct f as [| |s b]; [congruence| |].
+  intros W A. destruct f as [| |s b].
+  - unfold check_native_func. destruct (is_keyword name); eexists; reflexivity.
   - unfold check_native_func. destruct (is_keyword name); eexists; reflexivity.
   - cbn [wf_fval] in W.
     destruct (check_native_func name (FFunc s b)) as [[e|]|k] eqn:E.
@@ -213,7 +214,7 @@ Qed.
 
 (* ---- initNativeFuncs's first loop ---- *)
 Lemma check_all_ok funcs :
-  (forall n f, In (n, f) funcs -> f <> FNil /\ wf_fval f) ->
+  (forall n f, In (n, f) funcs -> wf_fval f) ->
   exists r, check_all funcs = NOk r /\
     match r with
     | None => forall n f, In (n, f) funcs -> acceptable n f = true
@@ -222,10 +223,11 @@ Lemma check_all_ok funcs :
 Proof.
   induction funcs as [|[n f] rest IH]; intros H.
   - exists None. split; [reflexivity|]. intros ? ? [].
-  - cbn [check_all]. destruct (H n f (or_introl eq_refl)) as [Hn W].
+  - cbn [check_all]. pose proof (H n f (or_introl eq_refl)) as W.
     destruct (acceptable n f) eqn:A.
     + assert (E : check_native_func n f = NOk None).
-      { destruct f as [| |s b]; [congruence| |].
+      { destruct f as [| |s b].
+        - unfold acceptable in A. rewrite andb_false_r in A. discriminate.
         - unfold acceptable in A. rewrite andb_false_r in A. discriminate.
         - apply check_accepts_iff; assumption. }
       rewrite E. cbn [nbind].
@@ -233,7 +235,7 @@ Proof.
       exists r. split; [exact Er|]. destruct r as [[n' e']|].
       * destruct Hr as (f' & Hin & Hr). exists f'. split; [right; exact Hin|exact Hr].
       * intros n' f' [[= <- <-]|Hin]; [exact A|apply Hr; exact Hin].
-    + destruct (invalid_rejected_partial n f Hn W A) as (e & E). rewrite E. cbn [nbind].
+    + destruct (invalid_rejected n f W A) as (e & E). rewrite E. cbn [nbind].
       exists (Some (n, e)). split; [reflexivity|]. exists f. repeat split; try assumption. left; reflexivity.
 Qed.
 
@@ -261,12 +263,20 @@ Proof.
     intros _. exists s, b. rewrite V. split; [reflexivity|exact E].
 Qed.
 
+(* the parse-time check never panics, whatever the map holds *)
 Theorem resolve_call_no_panic funcs awk name nargs :
-  (forall f, lookup name funcs = Some f -> exists s b, f = FFunc s b) ->
   exists r, resolve_call funcs awk name nargs = NOk r.
 Proof.
-  intros H. unfold resolve_call. destruct (mem_bytes name awk); [eexists; reflexivity|].
-  destruct (lookup name funcs) as [f|] eqn:L; [|eexists; reflexivity].
-  destruct (H f eq_refl) as (s & b & ->).
+  unfold resolve_call. destruct (mem_bytes name awk); [eexists; reflexivity|].
+  destruct (lookup name funcs) as [[| |s b]|] eqn:L; try (eexists; reflexivity).
   destruct (_ <? nargs); eexists; reflexivity.
+Qed.
+
+(* calling a value that is not a function is a parse error *)
+Theorem not_a_function_is_parse_error funcs awk name nargs f :
+  mem_bytes name awk = false -> lookup name funcs = Some f -> (forall s b, f <> FFunc s b) ->
+  resolve_call funcs awk name nargs = NOk (Some PNotFunc).
+Proof.
+  intros A L H. unfold resolve_call. rewrite A, L. destruct f as [| |s b]; try reflexivity.
+  exfalso. exact (H s b eq_refl).
 Qed.
